@@ -171,6 +171,15 @@ func checkC09(c *CaseC09, fl *Fails) {
 }
 
 func sweepC09(tier string, emit func(*CaseC09)) {
+	// many descendants: 2^15 .. 2^17 (thorough 2^20) children zoomed back out and merged in one call
+	big := [][2]int64{{5, 5}, {6, 4}, {4, 9}}
+	if tier != "quick" {
+		big = append(big, [2]int64{7, 6}, [2]int64{3, 13})
+	}
+	for i, d := range big {
+		b := ref.Box{H: 10, X: 500 + int64(i), Y: 400, V: 10, F: -3 - int64(i)}
+		emit(&CaseC09{P: Pt{F64(139.767125), F64(35.681236), F64(-0.5)}, HFine: 12, HCoarse: 10, VFine: 12, VCoarse: 9, Box: b, DH: d[0], DV: d[1]})
+	}
 	pts := []Pt{{F64(139.767125), F64(35.681236), F64(-0.5)}, {F64(-180), F64(-latLimit), F64(-altLimit)}, {F64(180), F64(latLimit), F64(math.Nextafter(altLimit, 0))},
 		{F64(math.Nextafter(180, 0)), F64(0), F64(-1)}, {F64(-0.0000001), F64(-1e-10), F64(math.Nextafter(0, -1) * 1e300)}, {F64(45), F64(66.51326044311186), F64(-1024.25)}}
 	for hf := int64(0); hf <= 35; hf++ {
